@@ -254,8 +254,9 @@ def _check_sampler(res, f, name, fam, spec, ps, p1, p2):
             if sz != n:
                 problems.append("size=%r, expected %d" % (sz, n))
             problems += _cmp_bound({k: v for k, v in val.args.items() if k != "size"}, spec["npkw"], p1, p2)
-            if n == 1 and val.index != 0:
-                problems.append("n=1 should return the single element [0]")
+            if n == 1 and not (isinstance(val.index, int) and not isinstance(val.index, bool) and -1 <= val.index <= 0):
+                # the sample has one element: index 0 and index -1 both denote it
+                problems.append("n=1 should return the single element of the sample, not %s" % ("the array" if val.index is None else "item %r" % (val.index,)))
             if n > 1 and val.index is not None:
                 problems.append("n>1 should return the whole array")
             res.check(not problems, "R-SEED", f, tag, "%s -> %r" % (tag, val),
